@@ -1,25 +1,89 @@
 #!/usr/bin/env python3
-"""Regenerates /verif/MANIFEST.json from the table below (keeps the file valid at all times)."""
-import json, subprocess
+"""Regenerates /verif/MANIFEST.json. A property is claimed iff its monitor file
+internal/props/cNN.go exists; the others are listed under not_applicable with the reason."""
+import json, os, subprocess
 
-HOOK_COMMITS = ["c526348"]
+def hook_commits():
+    out = subprocess.run(["git", "-C", "/repo", "log", "--format=%h %s"], capture_output=True, text=True).stdout
+    return [l.split()[0] for l in out.splitlines() if l.split(" ", 1)[1].startswith("verif hooks")]
+
+E = "exploration"
+F = "fault_enumeration"
+TB = " Trusted: the harness's own reference model / generators (/verif/internal/model, gen, render), conversions through public accessors. Held on the executions observed, not a proof."
 
 CHECKS = {
- "C01": dict(cat="exploration", tech="differential runtime monitor: cedar-go evaluator vs independent big-integer reference evaluator over exhaustive operator x boundary tables and random type-directed trees; minimal-subterm localisation",
-   text="Every execution of x/exp/eval.Eval on the generated (expression, store, request) cases is compared with an independent reference evaluator (value-vs-error agreement and value equality). Operator x boundary-operand tables are enumerated completely, random trees to depth 5/7 on top. Held-on-what-was-observed, not a proof.",
-   note="Trusted: the reference evaluator /verif/internal/model (written from the Cedar language reference / Lean spec conventions), bridge conversions through public accessors. Error kinds are statistics only.", ref="5/C01"),
+ "C01": dict(cat=E, ref="5/C01", tech="differential runtime monitor: cedar-go evaluator vs independent big-integer reference evaluator over exhaustive operator x boundary tables and random type-directed trees; minimal-subterm localisation",
+   text="Every execution of x/exp/eval.Eval on the generated (expression, store, request) cases is compared with an independent reference evaluator (value-vs-error agreement and value equality). Operator x boundary-operand tables are enumerated completely, random trees to depth 5/7 on top.",
+   note="Error kinds are statistics only (the property fixes when evaluation fails, not which message)." + TB),
+ "C02": dict(cat=E, ref="5/C02", tech="decision-table oracle over exhaustively enumerated class sequences + random policy sets, through every PolicyIterator form; id/position/message checks on diagnostics",
+   text="All sequences of (permit|forbid) x (satisfied|unsatisfied|erroring) policies up to length 4/5, in 3 by-construction realisations each, are authorised through *PolicySet, IsAuthorized, NewPolicySetFromBytes, PolicyMap and two custom iterators and compared with the Cedar decision table (decision, exact reason set, exact error set, each with own id and source position, message equal to the solo run); random policy sets with reference-model outcomes on top.",
+   note="Per-policy outcomes of the enumerated part are fixed by construction against a fixed store/request." + TB),
+ "C03": dict(cat=E, ref="5/C03", tech="exhaustive small-graph enumeration against a bitmask reachability model, logical step budget on EntityGetter.Get as non-termination witness; operator, set, is-in, scope and batch (partial-evaluation) paths",
+   text="All parent digraphs on <=4 nodes x all presence subsets x all ordered pairs for `a in b`; set targets, `is T in`, every scope form through Authorize and through batch.Authorize (partial evaluation) on all digraphs with <=3 (quick) / 4 (thorough) nodes; random 5-8 node graphs. Nodes carry equal ids under different entity types.",
+   note="Non-termination is decided by a logical budget of 64(n+1)^2 Get calls, no clock." + TB),
+ "C04": dict(cat=E, ref="5/C04", tech="differential monitor: compiled (folded) policy via Authorize vs direct evaluation of the original tree vs hook-exposed folded AST, in 8 environments per policy incl. the empty store; AST/text/JSON fingerprints before/after; type-confused twin compiled after its original",
+   text="For generated policies biased to what the folder touches (closed, closed-erroring, short-circuit with skipped or evaluated ill-typed operands, absorbing constants on the right, store-dependent constants, reflexive membership) the outcome class of the compiled policy equals direct evaluation in every environment; the caller's AST and its renderings are unchanged.",
+   note="Direct evaluation of the original tree is the property's own reference; the reference model only arbitrates in reports." + TB),
+ "C05": dict(cat=F, ref="5/C05", tech="brute-force oracle: the harness enumerates the Cartesian product and substitutes itself, compares the multiset of callbacks with cedar.Authorize per concrete request; fault injection at every callback index and at every context poll",
+   text="For generated (template, policy set, store) triples - variables in every request part, nested in records/sets, repeated, several variables, empty/singleton lists - exactly one callback per product element with the substituted request, the substitution, the ordinary authorizer's decision and reason set; callback failure at every k and cancellation at every poll stop enumeration and return that error.",
+   note="Fault surface is the API boundary (callback, context.Context)." + TB),
+ "C06": dict(cat=E, ref="5/C06", tech="completion-enumeration oracle over PartialPolicy residuals (sat(residual,c)==sat(policy,c), drop => never satisfied, ignore only widens permits) + directed enumeration of strict nodes mixing unknown and ignored operands",
+   text="For generated policies x partial environments (unknown request parts, unknowns nested in context records/sets, ignored parts) every completion from a policy-derived universe (<=64 each) is checked: kept residual equivalent, dropped policy unsatisfiable, ignored parts only widen permits. A directed stream enumerates 11+ strict node shapes x operand orders x effect x when/unless x unknown/ignored modes.",
+   note="Residuals are run by cedar-go's ordinary evaluator (they contain its partial-error nodes); the original's outcome comes from the reference model and is cross-checked." + TB),
+ "C07": dict(cat=E, ref="5/C07", tech="parse(render(T)) == T with an independent grammar-driven printer (full / minimal parentheses / layout noise), exhaustive parent x child x position operator triples, reject list",
+   text="ASTs built from harness terms are printed by an independent printer in three renderings and must parse to exactly that AST; every operator pairing in every operand position is enumerated; texts outside the grammar must be rejected.",
+   note="Only texts whose grammar-prescribed tree is beyond dispute are emitted (DESIGN section 10)." + TB),
+ "C08": dict(cat=E, ref="5/C08", tech="round-trip monitor MarshalCedar -> UnmarshalCedar -> MarshalCedar with semantic comparison under >=6 environments and byte-identity of the second rendering; list/set/encoder order",
+   text="Policies from three sources (programmatic ASTs with arbitrary values, parsed texts, decoded JSON) must re-parse, keep effect/annotations/scope, evaluate identically and re-render byte-identically; lists, sets and Encoder/Decoder keep documented order.",
+   note="Meaning is compared by evaluation (value or failure) in environments derived from the policy." + TB),
+ "C09": dict(cat=E, ref="5/C09", tech="AST-equality round trip through the JSON codec, independent spec-conformant JSON encoder as second source, text<->JSON commuting squares, authorization agreement",
+   text="decode(encode(p)) has the identical AST; policy-set ids are preserved; text->JSON->text and JSON->text->JSON commute; an independent JSON encoder's documents decode to the builder AST; all encodings authorize identically.",
+   note="Extension-typed literal values are compared modulo the documented value<->constructor-call spelling." + TB),
+ "C10": dict(cat=F, ref="5/C10", tech="hostile-input monitor in journalled child processes: observed outcome of every decoder in {value, error, panic, fatal crash, timeout}; structural JSON mutation, byte mutation, deep nesting; accepted values pushed through every encoder and the authorizer",
+   text="Every decoder is fed corpus documents, generated valid documents and their mutations (byte-level, token-level, JSON structural: every sub-tree replaced by null/[]/{}/\"\"/0, keys deleted), arbitrary bytes and deep nesting; only value or error are allowed; every accepted value goes through every encoder and Authorize.",
+   note="Timeouts count only when the single input reproduces them alone (otherwise inconclusive)." + TB),
+ "C11": dict(cat=E, ref="5/C11", tech="algebraic-law monitor over an exhaustive collision universe (all sequences up to length 4/5) + structural invariant hooks on Set/Record + mutation-aliasing probes",
+   text="Equality laws over all pairs/triples of the universe, NewSet for every permutation/duplication, set/record equality and subset operators against the model, codec stability of equal values, hook invariants (probe reachability, no duplicates, summed hash), and immutability under mutation of constructor inputs / accessor outputs.",
+   note="Hooks types.VerifSetInvariant/VerifRecordInvariant (build tag verif) expose the open-addressing invariants." + TB),
+ "C12": dict(cat=E, ref="5/C12", tech="differential monitor of scalar printers/parsers/constructors against independent big-integer parsers and printers; exhaustive edit-distance-1/2 mutants of valid literals; all Unicode scalar values (thorough)",
+   text="Parse(String(v))==v and Cedar renderings evaluate to v for boundary and random payloads of every scalar type; accept/reject and value of literal strings agree with the reference parsers for all strings within edit distance 1 (2) of valid literals; constructors are exact or fail.",
+   note="Syntax acceptance asserted only for unambiguous RFC 80 forms; float constructors only for NaN/Inf/range and exactly representable inputs." + TB),
+ "C13": dict(cat=E, ref="5/C13", tech="JSON round-trip monitor for values, entities, entity maps, requests, diagnostics; alternative spellings written by the harness; schema-guided coercion path",
+   text="decode(encode(x)) equals x, encode is stable across a second trip, and every accepted spelling of one datum decodes to an equal value.",
+   note="Records that are exactly an escape object are excluded (inherently ambiguous in Cedar JSON)." + TB),
+ "C14": dict(cat=E, ref="5/C14", tech="repetition monitor: R-fold re-execution (each Go map range is a fresh schedule), fresh re-parses and shuffled insertion orders; the number of distinct outputs must be 1",
+   text="Decision, reason set, error set with messages and all marshalled bytes are compared across R=24/64 repetitions, re-decodings and insertion orders for inputs biased to where map order can leak.",
+   note="P(miss) of a 2-way order leak <= 2^-23 per input." + TB),
+ "C15": dict(cat=E, ref="5/C15", tech="soundness monitor: validator verdict vs observed evaluation error class (sentinel hook) on by-construction schema-conforming requests and stores, with single-step type-breaking mutations",
+   text="For generated schemas and policies the validator accepts (strict and permissive), evaluation on schema-conforming data never fails with type / unknown-function / arity / missing attribute-or-tag errors.",
+   note="Conforming data are additionally accepted by validator.Entities/Request; disagreement there is inconclusive." + TB),
+ "C16": dict(cat=F, ref="5/C16", tech="termination/no-crash monitor in journalled child processes over exhaustive small schema graphs (entity hierarchies, common types, action groups) x policies/entities/requests",
+   text="Resolve and every validator entry point return normally (result or error) for all small schema graphs incl. cycles, self references, undefined references and shadowing, and for JSON-decoded policies with set/record/extension literals.",
+   note="Fatal stack overflows are attributed through an on-disk journal; watchdog hits count only when reproduced alone." + TB),
+ "C17": dict(cat=E, ref="5/C17", tech="round-trip monitor over generated schema ASTs: Resolve(parse(render(s))) ~ Resolve(s) for text, JSON and cross conversions; byte-identical second rendering",
+   text="Generated schemas (namespaces, common types, optional attributes, enums, action groups, annotations, names needing quotes) survive both codecs and both conversions with the same resolved schema and stable bytes.",
+   note="Same-named common type and entity type visible from one site are excluded from the text path (indistinguishable there)." + TB),
+ "C18": dict(cat=F, ref="5/C18", tech="schedule/fault monitor over io.Reader chunkings (1 byte .. 1025, random, zero-length reads, data+EOF, failing reader at every byte) vs whole-slice parsing; positions vs the generator's own counter",
+   text="Token streams and policy streams are identical under every reader schedule; a failing reader yields an error and no truncated policy; offset/line/column of every policy equal the generator's record and appear in diagnostics.",
+   note="Documents are assembled so that tokens straddle the 1024-byte buffer boundary." + TB),
+ "C19": dict(cat=E, ref="5/C19", tech="Go race detector over barrier-released goroutine rounds on fresh shared objects + per-call solo-result comparison + reflection fingerprints of inputs before/after every read-only operation",
+   text="Zero race reports over 150/3000 rounds of 16-64 goroutines mixing Authorize, batch.Authorize, marshalling, accessors and validation on shared inputs; every concurrent call returns its solo result; inputs (incl. unexported evaluator trees) are unchanged.",
+   note="Race reports are process-external evidence (log files of a -race child)." + TB),
+ "C20": dict(cat=E, ref="5/C20", tech="model-based history checking: an executable id->policy map stepped alongside PolicySet operations with authorization probes and marshal/unmarshal round trips spliced in; exhaustive short histories + random long ones",
+   text="Every operation returns what the map model predicts after any history; authorization depends only on current contents; loader ids policy0.. with file name in every position; MarshalCedar in lexicographic id order; Map() copies independent.",
+   note="Policies carry by-construction outcomes so expected decisions follow from the model's contents." + TB),
 }
 
-NOT_YET = "monitor not built yet in this revision of /verif (work in progress); the property is intended to be decided by a runtime monitor as described in DESIGN.md section 5"
-
+NOT_YET = "monitor not built yet in this revision of /verif (work in progress); intended to be decided by the runtime monitor described in DESIGN.md section 5"
 ALL = ["C%02d" % i for i in range(1, 21)]
 
 def main():
-    checks = []
+    checks, na = [], []
     for pid in ALL:
-        if pid not in CHECKS:
-            continue
         c = CHECKS[pid]
+        if not os.path.exists(f"/verif/internal/props/{pid.lower()}.go"):
+            na.append({"property_id": pid, "reason": NOT_YET})
+            continue
         checks.append({
             "property_id": pid,
             "quick_cmd": f"./run.sh {pid} quick",
@@ -31,23 +95,23 @@ def main():
             "level_note": c["note"],
             "technique": c["tech"],
         })
-    na = [{"property_id": p, "reason": NOT_YET} for p in ALL if p not in CHECKS]
     m = {
         "version": 1,
-        "setup_cmd": "cd /verif && GOFLAGS=-mod=mod GOPROXY=off GOSUMDB=off GOTOOLCHAIN=local go build -tags verif -o bin/check ./cmd/check",
+        "setup_cmd": "cd /verif && mkdir -p bin && GOFLAGS=-mod=mod GOPROXY=off GOSUMDB=off GOTOOLCHAIN=local go build -tags verif -o bin/check ./cmd/check",
         "hooks": {
             "guard": "verif (Go build tag)",
             "enable": "go build -tags verif (the harness module /verif replaces github.com/cedar-policy/cedar-go with /repo, so every check rebuilds from /repo's working tree)",
             "baseline_off_cmd": "cd /repo && GOPROXY=off GOSUMDB=off GOTOOLCHAIN=local go test -vet=off -count=1 ./...",
-            "source_commits": HOOK_COMMITS,
+            "source_commits": hook_commits(),
             "add_only": True,
         },
         "engines": [{"name": "check", "path": "/verif/cmd/check", "serves_properties": [c["property_id"] for c in checks],
                      "kind_free_text": "Go runtime-monitoring harness: seeded generators, independent reference model, differential/invariant oracles over executions of the real code, child-process supervision, race-detector build for C19"}],
         "checks": checks,
-        "notes": "All checks are runtime monitors over executions of the real code (see DESIGN.md). Exit 0 held on what was observed, 1 VIOLATION, 2 INCONCLUSIVE (observed too little), 3 build/usage error. known_findings.json lists recorded genuine defects.",
-        "not_applicable": na,
+        "notes": "All checks are runtime monitors over executions of the real code (see DESIGN.md). Exit 0 held on what was observed, 1 VIOLATION, 2 INCONCLUSIVE (observed too little), 3 build/usage error. known_findings.json lists recorded genuine defects (open) and repaired ones (fixed).",
     }
+    if na:
+        m["not_applicable"] = na
     json.dump(m, open("/verif/MANIFEST.json", "w"), indent=1)
     print("MANIFEST.json written:", len(checks), "checks,", len(na), "not claimed")
 
